@@ -42,6 +42,9 @@ def run(chk, repo: Repo):
     chk.rule("C17-R3", "unit-vector assembly puts F(e_i) in column i", floor=1)
     chk.rule("C17-R4", "noise-type and boundary-condition chains refuse unknown values", floor=4)
     chk.rule("C17-R5", "get_components returns (self.model, self.data, info filled from self)", floor=1)
+    chk.rule("C17-R6", "PSF sample grids are centred on the kernel origin: for both parities of the size N the grid is N consecutive integers with "
+                       "its zero at index N // 2 (the origin of scipy's convolve1d and of the padded 'valid' convolution)", floor=7)
+    _r6(chk, repo)
     for cname in CLASSES:
         ci = repo.cls(f"{TP}:{cname}")
         init = repo.method(ci, "__init__")[1]
@@ -219,3 +222,82 @@ def _r4(chk, repo):
                 chk.note(f"C17-R4 {where}: option chain on `{subj}` {[l for _, l in tests]} ends with {'a refusal' if refuses else ('a default branch' if final else 'no else branch (unknown value surfaces later as NameError)')}")
     if n < 4:
         raise AnchorError(f"{n} noise-type/boundary chains found, 4 confirmed by hand")
+
+
+# ------------------------------------------------------------------------------------------------ R6
+PSF_BUILDERS = ("_createPSF_1D", "_DefocusPSF_1D", "_GaussPSF", "_MoffatPSF", "_DefocusPSF")
+SIZE_NAMES = {"PSF_size", "dim", "m", "n"}
+
+
+def _r6(chk, repo):
+    """Abstract evaluation (sa/parity.py: N = 2k + p, affine forms in k per parity case) of every integer sample grid of the PSF builders."""
+    from ..parity import evaluate, Aff, Range
+    for fname in PSF_BUILDERS:
+        fn = repo.func(f"{TP}:{fname}")
+        # single-definition locals are inlined
+        defs = {}
+        for s in ast.walk(fn):
+            if isinstance(s, ast.Assign) and len(s.targets) == 1 and isinstance(s.targets[0], ast.Name):
+                defs.setdefault(s.targets[0].id, []).append(s.value)
+        env = {k: v[0] for k, v in defs.items() if len(v) == 1 and k not in SIZE_NAMES}
+        sizes = SIZE_NAMES & ({a.arg for a in fn.args.args} | set(defs) | {t.id for s in ast.walk(fn) if isinstance(s, ast.Assign)
+                                                                              for t in ast.walk(s.targets[0]) if isinstance(t, ast.Name)})
+        found = 0
+        seen = set()
+        for node in ast.walk(fn):
+            if not isinstance(node, (ast.BinOp, ast.Call)):
+                continue
+            if not any(isinstance(c, ast.Call) and (path_of(c.func) or "").endswith("arange") for c in ast.walk(_inline(node, env))):
+                continue
+            vals = [evaluate(node, sizes, p, env) for p in (0, 1)]
+            if not all(isinstance(v, Range) for v in vals):
+                continue
+            par = getattr(node, "_parent", None)
+            if isinstance(par, (ast.BinOp, ast.Call)) and all(isinstance(evaluate(par, sizes, p, env), Range) for p in (0, 1)):
+                continue                      # not maximal
+            if isinstance(par, ast.Assign) and isinstance(par.targets[0], ast.Name) and par.targets[0].id in env \
+                    and _used_only_in_ranges(fn, par.targets[0].id, sizes, env, evaluate, Range):
+                continue                      # an intermediate (e.g. k = arange(1, N+1)) that is only used shifted
+            key = unparse(node)
+            if key in seen:
+                continue
+            seen.add(key)
+            found += 1
+            problems = []
+            for p, v in zip((0, 1), vals):
+                if not (v.length == Aff(2, p)):
+                    problems.append(f"{'odd' if p else 'even'} N: {v.length} points instead of N")
+                elif not (v.first == Aff(-1, 0)):
+                    off = (v.first - Aff(-1, 0))
+                    problems.append(f"{'odd' if p else 'even'} N: the grid starts at {v.first} (k = N // 2), so its zero sits at index N//2{float(-off.b):+g} "
+                                    f"instead of N // 2")
+            chk.add("C17-R6", f"{TP}:{fname}/grid@{key[:50]}", not problems, site(repo, node), "N points, zero at index N // 2 for even and odd N",
+                    f"`{key}`: " + "; ".join(problems) + ": the PSF is displaced against the kernel origin, i.e. the blur also shifts the signal", node)
+        if found == 0:
+            raise AnchorError(f"{fname}: no integer sample grid recognised")
+
+
+def _inline(node, env):
+    from ..flow import clone
+    class T(ast.NodeTransformer):
+        def __init__(self):
+            self.depth = 0
+        def visit_Name(self, n):
+            if n.id in env and self.depth < 4:
+                self.depth += 1
+                r = self.visit(clone(env[n.id]))
+                self.depth -= 1
+                return r
+            return n
+    return T().visit(clone(node))
+
+
+def _used_only_in_ranges(fn, name, sizes, env, evaluate, Range) -> bool:
+    uses = [n for n in ast.walk(fn) if isinstance(n, ast.Name) and n.id == name and isinstance(n.ctx, ast.Load)]
+    if not uses:
+        return False
+    for u in uses:
+        par = getattr(u, "_parent", None)
+        if not (isinstance(par, ast.BinOp) and all(isinstance(evaluate(par, sizes, p, env), Range) for p in (0, 1))):
+            return False
+    return True
